@@ -237,6 +237,7 @@ class Controller:
         self.known_seen: dict[tuple, dict] = {}
         self.errors: list[str] = []
         self.digests: dict[int, str] = {}
+        self.aux: list = []
 
     # ---- one chunk, executed inside a forked child
     def _chunk_fn(self, run_indices, keep_digests=False):
@@ -264,6 +265,8 @@ class Controller:
                     sim_time=res.get("sim_time", 0.0),
                     viol=res["violations"],
                 )
+                if res.get("aux") is not None:
+                    rec["aux"] = res["aux"]
                 if res["violations"] or ri < 3:
                     rec["trace"] = trace
                 out.append(rec)
@@ -285,6 +288,8 @@ class Controller:
             if rec.get("il") and len(self.interleavings) < 2_000_000:
                 self.interleavings.add(rec["il"])
             self.digests[rec["run"]] = rec["dg"]
+            if rec.get("aux") is not None and len(self.aux) < 64:
+                self.aux.append(rec["aux"])
             if "trace" in rec and not rec["viol"] and len(self.samples) < 3:
                 self.samples.append(_sample_view(rec["trace"]))
             for v in rec["viol"]:
@@ -502,7 +507,7 @@ def explore(ctl: Controller, a, t0):
     for (chk, site), vs in list(groups.items())[:6]:
         v = min(vs, key=lambda x: len(x["trace"]["steps"]))
         try:
-            small = ctl.shrink(v, budget_s=90 if a.tier == "quick" else 300)
+            small = ctl.shrink(v, budget_s=float(os.environ.get("VERIF_SHRINK_S") or (90 if a.tier == "quick" else 300)))
         except HarnessError as e:
             ctl.errors.append(f"shrink: {e}")
             small = v["trace"]
